@@ -61,13 +61,14 @@ def sh(cmd, cwd=None, env=None, timeout=None):
 
 
 class Lock:
-    def __init__(self, name):
+    def __init__(self, name, shared=False):
         os.makedirs(BUILD, exist_ok=True)
         self.path = os.path.join(BUILD, name)
+        self.shared = shared
 
     def __enter__(self):
-        self.f = open(self.path, "w")
-        fcntl.flock(self.f, fcntl.LOCK_EX)
+        self.f = open(self.path, "a")
+        fcntl.flock(self.f, fcntl.LOCK_SH if self.shared else fcntl.LOCK_EX)
 
     def __exit__(self, *a):
         fcntl.flock(self.f, fcntl.LOCK_UN)
@@ -272,6 +273,14 @@ def props(pid):
     return res
 
 
+def coqchk(pid):
+    """Independent re-check of the compiled theorems (thorough tier)."""
+    rc, out = sh(["timeout", "2400", "coqchk", "-silent", "-o", "-R", COQ, "Mixin", "Mixin.Props." + pid])
+    summary = out[out.find("CONTEXT SUMMARY"):] if "CONTEXT SUMMARY" in out else out[-1500:]
+    axioms = re.search(r"\* Axioms:(.*?)\n\s*\n\* Constants", summary, re.S)
+    return {"ok": rc == 0, "axioms": (axioms.group(1).strip() if axioms else "?"), "summary": summary.strip()[:3000]}
+
+
 def eval_cases(pid, outdir, shard=300):
     """Model side of the correspondence: cases.txt -> shards -> coqc vm_compute."""
     path = os.path.join(outdir, "cases.txt")
@@ -391,11 +400,15 @@ def main(argv):
             notes.append(clog[-2000:])
         rc_make, mlog, failed = coq_build(pid)
         pr = props(pid)
+        chk = coqchk(pid) if (tier == "thorough" and pr["compiled"] and not replay) else None
     gate_bad = gate(pid)
     theorems = pr["theorems"]
     obligations = len(theorems)
     discharged = sum(1 for t in theorems if t["discharged"])
     proofs_ok = okc and obligations > 0 and discharged == obligations and not gate_bad
+    if chk is not None and not chk["ok"]:
+        proofs_ok = False
+        notes.append("coqchk failed:\n" + chk["summary"][-1500:])
     broken_names = [t["name"] for t in theorems if not t["discharged"]]
 
     # 3. harness
@@ -415,7 +428,14 @@ def main(argv):
     # 4. model on the same cases
     ncases, bad, evlog = (0, [], "")
     if rep is not None:
-        ncases, bad, evlog = eval_cases(pid, outdir)
+        with Lock("coq.lock", shared=True):
+            ncases, bad, evlog = eval_cases(pid, outdir)
+        if evlog and ("inconsistent assumptions" in evlog or "Cannot find" in evlog or "not found in loadpath" in evlog):
+            # a concurrent check rebuilt a shared library under us: rebuild ours and evaluate again
+            with Lock("coq.lock"):
+                coq_build(pid)
+            with Lock("coq.lock", shared=True):
+                ncases, bad, evlog = eval_cases(pid, outdir)
         if evlog:
             notes.append(evlog[-3000:])
     corr_ok = rep is not None and not bad and not evlog
@@ -515,6 +535,9 @@ def main(argv):
         "harness_notes": (rep or {}).get("notes", []),
         "repo": REPO,
     }
+    if chk is not None:
+        cov["coqchk"] = chk
+        tb.append("coqchk -silent -o (independent checker) on Mixin.Props.%s: %s; axioms: %s" % (pid, "ok" if chk["ok"] else "FAILED", chk["axioms"]))
     ev = {
         "property_id": pid, "tier": tier, "seed": seed, "level": "proof",
         "coverage": cov,
